@@ -229,7 +229,7 @@ def gen_components(rng):
     starts = list(range(n))
     ps = gen_mdp._split_prob(rng, n) if n <= 8 else None
     return {"n": n, "nA": nA, "actions": actions, "trans": trans, "reward": reward, "absorbing": absorbing,
-            "init": [[u, str(p)] for u, p in zip(starts, ps)], "gamma": rng.choice(["9/10", "19/20"])}
+            "init": [[u, str(p)] for u, p in zip(starts, ps)], "gamma": rng.choice(["9/10", "19/20", "49/50", "99/100"])}
 
 
 def _dy(rng, lo, hi, den=4):
@@ -382,6 +382,71 @@ def gen_sweep(rng, tier):
     return a, more
 
 
+# ordinary discount rates, incl. [.98, .995]: BELOW the gamma-near-one class (1-gamma <= 2^-10), judged at full strength
+DISC_GAMMAS = ["1/2", "9/10", "19/20", "49/50", "99/100", "199/200"]
+
+
+def gen_near_tie(rng, worse_first=False):
+    """discounted, value scale ~1e3, and a NEAR TIE: at one state the optimal action a has a clone b (same
+    transition row) whose reward is smaller by delta = rho*|Q*(s,a)|, rho in [1e-6, 1e-5] -- inside the
+    relative band of np.isclose, far above an absolute 1e-10.  By default b has a higher action id than a, so
+    policy iteration never sits on b (it starts on the lowest available id and only moves to strict float
+    maximisers); worse_first=True makes b the lowest id of that state (the initial policy)."""
+    for _ in range(50):
+        m = gen_mdp.gen_mdp(rng, nmax=4, amax=2, min_states=2, gamma=rng.choice(["9/10", "19/20", "49/50", "99/100"]),
+                            zero_entries=False, implicit_absorbing=False)
+        m["init"] = [[s_, p_] for s_, p_ in m["init"] if F(p_) != 0]
+        n = m["n"]
+        sl, al = list(range(n)), list(range(3))
+        P, R, av, absf, ini = gen_mdp.arrays(m, sl, al)
+        gam = F(m["gamma"])
+        absorbing, _ = _c01.model_masks(P, R, av, absf, gam)
+        Vs = _c01.exact_vstar(P, R, av, absorbing, gam)
+        if Vs is None or max(abs(x) for x in Vs) == 0:
+            continue
+        K = F(max(1, int(1000 / max(abs(x) for x in Vs))))
+        reach = gen_mdp.reachable(m)
+        cands = [s_ for s_ in range(n) if not absorbing[s_] and s_ in reach and len(m["actions"][s_]) <= 2]
+        if not cands:
+            continue
+        s0 = rng.choice(cands)
+        qs = {a: sum(P[s0][a][k] * (R[s0][a][k] + gam * Vs[k]) for k in range(n)) for a in m["actions"][s0]}
+        a = max(qs, key=lambda x: qs[x])
+        if sum(1 for x in qs.values() if x == qs[a]) > 1 or qs[a] == 0:
+            continue
+        # relabel the actions of s0 so that the clone gets the wanted position
+        others = [x for x in m["actions"][s0] if x != a]
+        ids = [0, 1, 2]
+        if worse_first:
+            b_id, a_id = 0, rng.choice([1, 2])
+        else:
+            a_id = rng.choice([0, 1]); b_id = rng.choice([x for x in ids if x > a_id])
+        o_id = [x for x in ids if x not in (a_id, b_id)][0]
+        ren = {a: a_id}
+        if others:
+            ren[others[0]] = o_id
+        rho = F(rng.randint(1, 10), 10**6)
+        delta = rho * abs(qs[a]) * K
+        delta = F(int(delta * 10**6) + 1, 10**6)            # a short decimal, > 0
+        trans, reward = {}, {}
+        for key, row in m["trans"].items():
+            s_, a_ = map(int, key.split(","))
+            a2 = ren[a_] if s_ == s0 else a_
+            trans["%d,%d" % (s_, a2)] = row
+        for key, r_ in m["reward"].items():
+            s_, a_, ns = map(int, key.split(","))
+            a2 = ren[a_] if s_ == s0 else a_
+            reward["%d,%d,%d" % (s_, a2, ns)] = str(F(r_) * K)
+        row = [[ns, p_] for ns, p_ in m["trans"]["%d,%d" % (s0, a)]]
+        trans["%d,%d" % (s0, b_id)] = row
+        for ns, p_ in row:
+            reward["%d,%d,%d" % (s0, b_id, ns)] = str(F(m["reward"].get("%d,%d,%d" % (s0, a, ns), "0")) * K - delta)
+        actions = [list(x) for x in m["actions"]]
+        actions[s0] = sorted(set(ren.values()) | {b_id})
+        return dict(m, nA=3, actions=actions, trans=trans, reward=reward), {"state": s0, "better": a_id, "worse": b_id, "rho": str(rho)}
+    return gen_mdp.gen_mdp(rng, nmax=4, amax=2, gamma="9/10"), None
+
+
 TINY_K = [8, 10, 20, 27, 30, 40, 52]
 
 
@@ -443,41 +508,44 @@ def gen_case(rng, tier):
     nmax = 6 if tier == "quick" else 8
     r = rng.random()
     more = None
-    if r < .20:
+    if r < .17:
         kind = "discounted"
-        m = gen_mdp.gen_mdp(rng, nmax=nmax, amax=3, gamma=rng.choice(["1/2", "9/10", "19/20"]))
-    elif r < .27:
+        m = gen_mdp.gen_mdp(rng, nmax=nmax, amax=3, gamma=rng.choice(DISC_GAMMAS))
+    elif r < .23:
         kind = "discounted-components"        # many disconnected components / paying self-loops, 5-8 states
         m = gen_components(rng)
-    elif r < .34:
+    elif r < .29:
         # continuing problems (no terminal states) with a discount rate very close to 1: |V*| ~ 1/(1-gamma)
         kind = "discounted-near-one"
         m = gen_mdp.gen_mdp(rng, nmax=4, amax=2, min_states=2, goal=False, implicit_absorbing=False,
                             gamma=rng.choice(NEAR_ONE))
-    elif r < .41:
+    elif r < .35:
         kind = "discounted-episodic-near-one"  # long stochastic corridors, gamma within ~1e-5 of 1
         m = gen_episodic_near_one(rng, tier)
-    elif r < .48:
+    elif r < .40:
         kind = "undisc-proper-nonpos"        # every policy reaches a terminal state
         m = gen_mdp.gen_mdp(rng, nmax=nmax, amax=3, gamma="1", proper=True)
-    elif r < .57:
+    elif r < .47:
         kind = "undisc-terminal-either-sign"  # terminal states exist but need not be reached
         m = _either_sign(rng, nmax=nmax, amax=3, min_states=2)
-    elif r < .64:
+    elif r < .53:
         kind = "undisc-recurrent"             # no explicit terminal states: unichain or multichain by chance
         m = _either_sign(rng, nmax=nmax, amax=3, min_states=2, goal=False)
-    elif r < .71:
+    elif r < .59:
         kind = "undisc-blocks"                # multichain by construction
         m = gen_blocks(rng, nmax)
-    elif r < .80:
+    elif r < .67:
         kind = "undisc-farms"                 # gain-class choice with exact / near bias ties
         m = gen_farms(rng)
-    elif r < .87:
+    elif r < .74:
         kind = "undisc-large-costs"           # costs ~ -1000 .. -100, state-dependent action sets, no terminal state
         m = gen_large_costs(rng)
-    elif r < .93:
+    elif r < .80:
         kind = "tiny-probabilities"           # probabilities 2^-k / 1-2^-k, k in {8,10,20,27,30,40,52}
         m = gen_tiny(rng)
+    elif r < .87:
+        kind = "discounted-near-tie"          # values ~1e3, a clone of the optimal action worse by 1e-6..1e-5 relative
+        m, _info = gen_near_tie(rng)
     else:
         kind = "undisc-sweep"                 # one planner object: A, perturbed B, (C,) A again
         m, more = gen_sweep(rng, tier)
@@ -647,9 +715,14 @@ def prepare(case, res):
         # d_eps/(1-gamma) of C16_discounted_values exceeds 1e-3 of the value scale (bites only for
         # gamma > 0.98: for the usual discount rates this is the band itself)
         d_eps = min(2 * band, F(1, 1000) * (1 - gam) * scale)
+        # ... and never wider than ~30-80x the residual the evaluation step attains on the unchanged code
+        # (measured max |h - T h| / scale over 150 MDPs per rate: 2e-15 at 1/2, 2e-13 at .9, 3e-12 at .95, 3e-11 at
+        # .98, 1e-10 at .99, 3e-9 at .995 ~ 1e-16/(1-gamma)^3): values are judged at d_eps/(1-gamma), i.e. 1e-10
+        # relative at .9, 1e-6 at .99 -- not at a blanket 1e-5
+        d_eps = min(d_eps, scale * max(F(1, 10**13), F(1, 10**14) / (1 - gam) ** 3))
         # reported gain (0 in a discounted problem; not part of the property): solver noise eps_g in the gain
         # shows up as eps_g/(1-gamma) in the values, so near gamma = 1 it is judged at the residual tolerance
-        d_gz = 10 * tiny if d_eps == 2 * band else max(10 * tiny, d_eps)
+        d_gz = max(10 * tiny, d_eps) if 1 - gam <= F(1, 2**10) else 10 * tiny
         tol = [d_eps, F(1001, 10**13) + tiny, d_gz, F(1, 10**12), tiny]
         d["tols"] = tol
         d["term"] = "chkd %s %s %s" % (mt, ot, " ".join(q(x) for x in tol))
@@ -759,7 +832,7 @@ def search_failing(case, res, d):
         if Vs is None:
             return None
         vscale = max([F(1)] + [abs(x) for x in Vs])
-        bound = d["tols"][0] / (1 - gam) + F(1, 10**6) * vscale
+        bound = d["tols"][0] / (1 - gam) + F(1, 10**12) * vscale     # the bound C16_discounted_values would give
         if near_one_continuing(case["mdp"], d["absorbing"], arrays=(d["P"], d["av"])):
             # the certificate (residual cap) already failed; a value off by more than 1e-5 relative is reported
             # as the value mismatch it is (the proved bound 1e-3 is sufficient, not necessary)
@@ -787,6 +860,21 @@ def search_failing(case, res, d):
                     why["signature"] = "C16:discounted:independent-rows-test-drops-equations"
                     why["reported_gain"] = [str(float(x)) for x in g]
                 return why
+        # the returned policy (uniform on its support) evaluated EXACTLY, against the exact optimum, at the bound
+        # C16_discounted_policy_return would give: d_loss/(1-gamma), d_loss = d_eta + 2 gamma d_eps/(1-gamma)
+        cnt = [sum(1 for a in range(nA) if pi[s][a] > 0) for s in range(n)]
+        up = [[F(1, cnt[s]) if pi[s][a] > 0 else F(0) for a in range(nA)] for s in range(n)]
+        A = [[(F(1) if i == j else F(0)) - gam * sum(up[i][a] * Pa[i][a][j] for a in range(nA)) for j in range(n)] for i in range(n)]
+        Vpi = _c01.solve_linear(A, [sum(up[i][a] * Ra[i][a] for a in range(nA)) for i in range(n)])
+        d_loss = d["tols"][1] + 2 * gam * d["tols"][0] / (1 - gam)
+        pbound = d_loss / (1 - gam) + F(1, 10**12) * vscale
+        if Vpi is not None:
+            for s in range(n):
+                if Vs[s] - Vpi[s] > pbound:
+                    return {"clause": "returned policy evaluated exactly does not attain the optimal discounted values",
+                            "state_index": s, "policy_value": str(float(Vpi[s])), "optimal": str(float(Vs[s])),
+                            "relative_loss": str(float((Vs[s] - Vpi[s]) / vscale)), "bound": str(float(pbound)),
+                            "policy": [[str(x) for x in row] for row in up]}
         for s in range(n):
             qs = [Ra[s][a] + gam * ex(Pa, Vs, s, a) for a in range(nA)]
             best = max(qs[a] for a in range(nA) if av[s][a])
@@ -990,7 +1078,8 @@ def run(ctx):
                 "(2-3 states, transition probabilities 2^-k and 1-2^-k for k in {8,10,20,27,30,40,52}: almost absorbing self-loops, almost unreachable exits, "
                 "almost disconnected classes, multi-state classes with a tiny leak; 80%% undiscounted), and 'sweeps' "
                 "(ONE planner object plans on A, a perturbation B with probabilities turned to/from 0, (C,) and A again; every step judged).  Residual tolerance = "
-                "improvement band, capped so that the proved value bound is <= 1e-3 of the value scale.  MultichainPolicyIteration(max_iterations in {200,500,1000}); "
+                "min(improvement band, 1e-3*(1-gamma)*scale, scale*max(1e-13, 1e-14/(1-gamma)^3)): discounted values are judged at 1e-10 relative at gamma .9, "
+                "1e-6 at .99 (30-80x the accuracy measured on the unchanged code).  MultichainPolicyIteration(max_iterations in {200,500,1000}); "
                 "only converged=True runs are judged; distinct = structural hash of the MDP; non-trivial = at least one non-terminal state" % nmax,
         "samples": [{"case": cases[items[meta[0]][0]], "impl": impl[items[meta[0]][0]]}] if meta else [],
         "cases": len(cases), "planning_steps": len(items), "certificate_checks": nchk, **stats,
